@@ -50,7 +50,7 @@ import struct
 import types
 
 STREAMS = ['cvt-direct', 'interleave-exhaustive', 'random-schedules', 'reentrant', 'disconnect-callbacks',
-           'resend', 'serial-reuse', 'not-ready']
+           'resend', 'two-connections', 'serial-reuse', 'not-ready']
 THEOREMS = [
     'refinement',
     'exactly_once',
@@ -261,6 +261,15 @@ def patched_reply(message, kind, variant, reply_serial, own_serial):
     return raw[:8] + struct.pack('<I', own_serial) + raw[12:off] + struct.pack('<I', reply_serial) + raw[off + 4:]
 
 
+# what is called: path, member, interface, destination, signature, body - rotates with the number of the call
+TARGETS = [
+    ('/obj', 'Method', 'org.t.Iface', 'org.t.Dest', None, None),
+    ('/obj', 'Other', 'org.t.Iface', 'org.t.Dest', 's', ['x']),
+    ('/obj/sub', 'Method', 'org.t.Iface2', 'org.t.Dest', None, None),
+    ('/', 'Method', None, ':1.7', 'ii', [1, 2]),
+    ('/obj', 'Method', 'org.t.Iface', 'org.t.Dest2', 'as', [['a', 'b']]),
+]
+
 UNIT = 0.5      # seconds of virtual time between two expiry operations (sub-second timeouts occur)
 
 
@@ -291,7 +300,9 @@ class SetupFailure(Exception):
 class Impl:
     """One real DBusClientConnection brought to the authenticated (and, if ready, Hello-answered) state."""
 
-    def __init__(self, scn):
+    def __init__(self, scn, share=None, label=''):
+        """`share` = another Impl of the same scenario (stream two-connections): this connection lives beside it -
+        same process, same reactor (clock), same process-wide serial counter."""
         from twisted.internet import task
         from twisted.internet.testing import StringTransport
         from twisted.python import failure
@@ -300,10 +311,22 @@ class Impl:
         from txdbus import message, error
         self.client, self.message, self.error = client, message, error
         self.failure = failure
-        self.clock = task.Clock()
-        client.reactor = self.clock
+        self.label = label
+        self.peer = share
+        if share is not None:
+            share.peer = self
+            self.world = share.world
+            self.clock = share.clock
+        else:
+            # what the connections of one scenario have in common: the count of expiry operations (deadlines are
+            # planned over the whole scenario) and every delayed call ever seen (kept alive: ids stay unique)
+            self.world = {'n_expire': 0, 'seen': {}}
+            self.clock = task.Clock()
+            client.reactor = self.clock
         self.loc = locators(client, message)
-        self.loc.serials.set(scn.get('serial0', 1))
+        if share is None and 'serial0' in scn:
+            # the counter is the process's: a scenario without `serial0` takes it as the earlier ones left it
+            self.loc.serials.set(scn['serial0'])
         self.factory = client.DBusClientFactory()
         self.conn = self.factory.buildProtocol(None)
         self.tr = StringTransport()
@@ -318,7 +341,7 @@ class Impl:
         self.factory.getConnection().addBoth(self.connected.append)
         self.templates = scn.get('stream') != 'random-schedules'
         if scn.get('ready', True):
-            if self.templates:
+            if self.templates and share is None:
                 own = self.loc.serials.take()
                 self.conn.dataReceived(patched_reply(message, 'hello', 0, self.hello_serial, own))
             else:
@@ -343,8 +366,26 @@ class Impl:
         self.is_lost = False
         self.created = []      # dids created during the current operation, in order
         self.harness_error = None
-        self.n_expire = 0
         self.deadline = {}
+        self.frozen = []       # [did, kind, value delivered, what it looked like when it was delivered, reported]
+        self.claim_timers()
+
+    @property
+    def n_expire(self):
+        return self.world['n_expire']
+
+    @n_expire.setter
+    def n_expire(self, v):
+        self.world['n_expire'] = v
+
+    def claim_timers(self):
+        """Delayed calls that appeared while this connection was being operated are not the other connection's."""
+        seen = self.world['seen']
+        for dc in self.clock.getDelayedCalls():
+            if id(dc) not in seen:
+                seen[id(dc)] = dc
+                if self.peer is not None:
+                    self.peer.foreign.add(id(dc))
 
     def reason(self, n):
         if n not in self.reasons:
@@ -391,11 +432,13 @@ class Impl:
 
         def cb(v):
             rec.append((did, 'cb', v))
+            self.frozen.append([did, 'cb', v, freeze('cb', v), False])
             if react_ok:
                 again('s', react_ok)
 
         def eb(f):
             rec.append((did, 'eb', f))
+            self.frozen.append([did, 'eb', f, freeze('eb', f), False])
             if react:
                 again('r', react)
         d.addCallbacks(cb, eb)
@@ -409,14 +452,15 @@ class Impl:
             kw['returnSignature'] = rs
         timeout = self.timeout_for(key, did, tmo)
         mark = len(self.tr.value())
+        path, member, iface, dest, sig, body = TARGETS[did % len(TARGETS)]
         if via_msg:
             if mcall is None:
-                mcall = self.message.MethodCallMessage('/obj', 'Method', interface='org.t.Iface',
-                                                       destination='org.t.Dest')
+                mcall = self.message.MethodCallMessage(path, member, interface=iface, destination=dest,
+                                                       signature=sig, body=body)
             d = self.conn.callRemoteMessage(mcall, timeout)
             d.addCallback(lambda m: self.loc.conv.convert(m, self.loc.NOCHECK))       # what callRemote adds
         else:
-            d = self.conn.callRemote('/obj', 'Method', interface='org.t.Iface', destination='org.t.Dest',
+            d = self.conn.callRemote(path, member, interface=iface, destination=dest, signature=sig, body=body,
                                      expectReply=bool(er), timeout=timeout, **kw)
         sent = self.tr.value()[mark:]
         serial = le32(sent[8:12]) if len(sent) >= 16 else None
@@ -469,6 +513,12 @@ class Impl:
                 return 0x7e000000 + 64 * key[1] + (1 + 'rsd'.index(key[0]) * 16 + key[2] if key[0] != 't' else 0)
             return self.calls[did]['serial']
         kind, n = who
+        if kind == 'x':
+            # the serial of the n-th top-level call of the OTHER connection of the scenario
+            pr = self.peer
+            if pr is not None and n < len(pr.top) and pr.calls[pr.top[n]]['serial'] is not None:
+                return pr.calls[pr.top[n]]['serial']
+            return 0x7c000000 + n
         if kind == 'u':
             return 0x7f000000 + n
         if kind == 'h':
@@ -629,6 +679,7 @@ class Impl:
         if self.harness_error is not None:
             raise self.harness_error
         self.tr.clear()
+        self.claim_timers()
         return lines, faults, serials, targets
 
     def other_connection(self):
@@ -734,6 +785,18 @@ class Impl:
         ts = sorted(self.timer_owners())
         return 'F[%s] P[%s] T[%s] X[%s]' % (';'.join(fs), ','.join(ps),
                                             ','.join('%d:%d' % t for t in ts), ','.join(faults))
+
+
+def freeze(kind, val):
+    """What a delivered result looks like now: the value, or the name / message / values of a RemoteError."""
+    if kind == 'cb':
+        return tok_deep(val)
+    e = val.value
+    if type(e).__name__ == 'RemoteError':
+        vals = getattr(e, 'values', None)
+        return json.dumps([_norm(getattr(e, 'errName', None)), _norm(getattr(e, 'message', None)),
+                           _norm(list(vals) if isinstance(vals, (list, tuple)) else vals)])
+    return None
 
 
 PLACEHOLDER_RE = re.compile(r'\{([rsd]):(\d+):(\d+)\}')
@@ -877,6 +940,7 @@ class Monitor:
         if kind == 'hello':
             self.state[0] = 'skip'
             return
+        # kind == 'idle': the operation was done on the OTHER connection of the scenario - nothing is expected here
         if kind in ('call', 'callmsg', 'callbad', 'callbig', 'recall') and not st.created:
             pass        # the operation raised before a call existed (reported below as a fault)
         elif kind in ('call', 'callmsg', 'callbad', 'callbig', 'recall'):
@@ -974,7 +1038,11 @@ class Monitor:
             self.fired[did] = self.fired.get(did, 0) + 1
             if self.fired[did] > 1:
                 self.bad('double-completion', 'call %d completed %d times' % (did, self.fired[did]))
-            if self.state.get(did) == 'missed':
+            if kind == 'idle':
+                self.bad('other-connection-affected', 'call %d of connection %s fired (%s) on %r done on the OTHER '
+                         'connection' % (did, im.label, _short(k, v), op[1:]))
+                self.state[did] = 'done'
+            elif self.state.get(did) == 'missed':
                 self.bad('call-issued-during-loss-completed-late', 'call %d, issued by a disconnect callback while '
                          'the loss was handled, was not failed by the loss; it completed only on %r, with %s'
                          % (did, op, _short(k, v)))
@@ -1030,6 +1098,16 @@ class Monitor:
         for did in st.created:
             if im.calls[did].get('unsent'):
                 self.postloss.add(did)
+
+        # (1b) what was delivered stays what it was: the value / the RemoteError's name, message and values are
+        # those of the reply that completed the call, also after later replies (to this or any other call)
+        for fz in im.frozen:
+            if not fz[4] and fz[3] is not None and freeze(fz[1], fz[2]) != fz[3]:
+                fz[4] = True
+                what = 'remoteerror' if fz[1] == 'eb' else 'value'
+                self.bad('delivered-%s-changed-later' % what,
+                         'call %d was completed with %s; after %r the same object reads %s'
+                         % (fz[0], fz[3], op, freeze(fz[1], fz[2])))
 
         # (2) no residue for completed calls; nothing at all after a loss
         pend = im.conn._pendingCalls
@@ -1479,6 +1557,90 @@ def gen_resend():
                                    'ops': extra + [['callmsg', tmo1]] + fire + [['recall', k]] + f}
 
 
+def gen_two_connections():
+    """Two live connections A and B of one process.  On each two calls (deadline / none in every combination that has
+    a deadline), optionally a disconnect callback that issues a call; a reply on the one that stays; the other is LOST;
+    then on the one that stays: its deadlines, late replies carrying the lost connection's serials, a new call and
+    its reply; the lost one's deadlines (cancelled: nothing); finally the second loss.  Plus error replies with and
+    without values alternating between the connections and on one connection (what was delivered must stay)."""
+    for lose in 'AB':
+        x, y = lose, ('B' if lose == 'A' else 'A')
+        for t0, t1 in (('N', 'P'), ('P', 'P'), ('P', 'N')):
+            for dc in (False, True):
+                for kind, v in (('ret', 2), ('err', 4)):
+                    for early_loss in (False, True):
+                        ops = []
+                        if dc:
+                            ops += [[x, ['ondisc', [['P', 'K']]]], [y, ['ondisc', [['N', 'K'], ['P', 'K']]]]]
+                        ops += [['A', ['call', 1, t0, 'K']], ['B', ['call', 1, t0, 'K']],
+                                ['A', ['call', 1, t1, 'K']], ['B', ['call', 1, t1, 'K']]]
+                        if early_loss:
+                            ops += [[x, ['lost', 0]], [y, [kind, 0, v]]]
+                        else:
+                            ops += [[y, [kind, 0, v]], [x, ['lost', 0]]]
+                        ops += [[y, ['expire', i]] for i, t in enumerate((t0, t1)) if t == 'P' and i == 1]
+                        ops += [[y, ['ret', ['x', 1], 7]], [y, ['err', ['x', 0], 2]]]
+                        ops += [[x, ['expire', i]] for i, t in enumerate((t0, t1)) if t == 'P']
+                        if dc:
+                            ops += [[x, ['expire', ['d', 0, 0]]]]
+                        ops += [[y, ['call', 1, 'P', 'K']], [y, ['ret', 2, 9]], [y, ['expire', 2]]]
+                        if t0 == 'P':
+                            ops += [[y, ['expire', 0]]]
+                        ops += [[y, ['lost', 1]]]
+                        if dc:
+                            ops += [[y, ['expire', ['d', 0, 1]]]]
+                        yield {'stream': 'two-connections', 'ready': True, 'ops': ops}
+    # what was delivered stays what it was (G12): error replies with / without values, returns with lists
+    for seq in ([('A', 0, 'err', 4), ('B', 0, 'err', 0), ('A', 1, 'err', 2)],
+                [('A', 0, 'err', 4), ('A', 1, 'err', 0), ('A', 2, 'err', 6)],
+                [('A', 0, 'err', 2), ('B', 0, 'err', 4), ('B', 1, 'err', 1), ('A', 1, 'err', 10)],
+                [('A', 0, 'ret', 7), ('B', 0, 'ret', 9), ('A', 1, 'ret', 7), ('B', 1, 'err', 4), ('A', 2, 'ret', 16)],
+                [('A', 0, 'err', 0), ('A', 1, 'err', 4), ('B', 0, 'err', 0), ('B', 1, 'err', 5)]):
+        for tmo in 'NP':
+            ops = []
+            for c in 'AB':
+                n = 1 + max([k for cc, k, _, _ in seq if cc == c] + [-1])
+                ops += [[c, ['call', 1, tmo, 'K']] for _ in range(n)]
+            ops += [[c, [kind, k, v]] for c, k, kind, v in seq]
+            yield {'stream': 'two-connections', 'ready': True, 'ops': ops}
+
+
+def gen_two_random(rng):
+    ops = []
+    n = {'A': [], 'B': []}      # per connection: timeout kind of its top-level calls
+    lost = set()
+    for _ in range(rng.randint(6, 22)):
+        c = rng.choice('AB')
+        o = 'B' if c == 'A' else 'A'
+        r = rng.random()
+        if (r < 0.3 or not n[c]) and len(n[c]) < 5:
+            tmo = rng.choice('PPN')
+            ops.append([c, ['call', 1, tmo, rng.choice(['K', 'K', 's'])]])
+            n[c].append(tmo)
+        elif r < 0.36 and c not in lost:
+            ops.append([c, ['ondisc', [[rng.choice('PN'), 'K']]]])
+        elif r < 0.46 and c not in lost and n[c]:
+            ops.append([c, ['lost', rng.randrange(3)]])
+            lost.add(c)
+        elif r < 0.62 and n[o] and c not in lost:
+            # a reply that carries a serial of the OTHER connection
+            if rng.random() < 0.5:
+                ops.append([c, ['ret', ['x', rng.randrange(len(n[o]))], rng.randrange(len(RET_VARIANTS))]])
+            else:
+                ops.append([c, ['err', ['x', rng.randrange(len(n[o]))], rng.randrange(len(ERR_VARIANTS))]])
+        elif r < 0.8 and n[c]:
+            timed = [i for i, t in enumerate(n[c]) if t == 'P']
+            if timed:
+                ops.append([c, ['expire', rng.choice(timed)]])
+        elif n[c] and c not in lost:
+            k = rng.randrange(len(n[c]))
+            if rng.random() < 0.5:
+                ops.append([c, ['ret', k, rng.randrange(len(RET_VARIANTS))]])
+            else:
+                ops.append([c, ['err', k, rng.randrange(len(ERR_VARIANTS))]])
+    return {'stream': 'two-connections', 'ready': True, 'ops': ops}
+
+
 def gen_reuse(rng):
     """Scenarios that re-send one message object (same serial): correspondence of the dict overwrite and of the
     faults (KeyError / AlreadyCalled) only; the property's hypothesis does not hold here."""
@@ -1620,8 +1782,62 @@ def run_cvt_direct(ctx):
 
 
 # --------------------------------------------------------------------------- judging scenarios
+def flat_ops(scn):
+    """The operations of a scenario without the connection they are done on."""
+    if scn.get('stream') == 'two-connections':
+        return [o[1] for o in scn['ops']]
+    return scn['ops']
+
+
+def _step(im, mon, op, lines, faults, new, serials, targets, created):
+    st = Step()
+    st.op, st.lines, st.faults, st.new, st.serials = op, lines, faults, new, serials
+    st.targets, st.created = targets, created
+    st.obs = im.snapshot(new, faults, _bodies_for(im, op, new, serials) if op[0] in ('ret', 'err', 'group') else {})
+    mon.step(st)
+    return st
+
+
+def monitor_two(scn):
+    """Stream two-connections: two live connections A and B of one process (one reactor, one serial counter), operations
+    `[conn, op]`.  Each connection has its own monitor and its own trace (compared with its own run of the model); an
+    operation done on one is an `idle` step of the other: nothing may fire there, table and timers stay."""
+    a = Impl(scn, label='A')
+    b = Impl(scn, share=a, label='B')
+    ims = {'A': a, 'B': b}
+    j = 0
+    pos = {'A': {}, 'B': {}}
+    for c, op in scn['ops']:
+        if op[0] in ('expire', 'expire2'):
+            j += 1
+            for ref in op[1:]:
+                pos[c].setdefault(Impl.refkey(ref), []).append(j)
+    a.expire_pos, b.expire_pos = pos['A'], pos['B']
+    mons = {'A': Monitor(a), 'B': Monitor(b)}
+    steps = {'A': [], 'B': []}
+    for c, op in scn['ops']:
+        o = 'B' if c == 'A' else 'A'
+        im, other = ims[c], ims[o]
+        n0, m0 = len(im.rec), len(other.rec)
+        lines, faults, serials, targets = im.do(op)
+        other.created = []
+        steps[c].append(_step(im, mons[c], op, lines, faults, im.rec[n0:], serials, targets, list(im.created)))
+        steps[o].append(_step(other, mons[o], ['idle', c, op], [], [], other.rec[m0:], [], [], []))
+    out = []
+    for c in 'AB':
+        for st in steps[c]:
+            st.lines = ims[c].finish_lines(st.lines)
+        out.append((ims[c], steps[c], [(k, 'connection %s: %s' % (c, t)) for k, t in mons[c].problems]))
+    return out
+
+
 def monitor_scenario(scn):
-    """Run the scenario with the monitor attached after every step.  Returns (im, steps, problems)."""
+    """Run the scenario with the monitor attached after every step.  Returns the traces [(im, steps, problems)] - one
+    per connection.  `history`: scenarios to run first in the same process (a replay that needs what came before)."""
+    for h in scn.get('history', []):
+        monitor_scenario(h)
+    if scn.get('stream') == 'two-connections':
+        return monitor_two(scn)
     im = Impl(scn)
     ops = scn['ops']
     im.plan_deadlines(ops)
@@ -1642,47 +1858,131 @@ def monitor_scenario(scn):
     for op in ops:
         n0 = len(im.rec)
         lines, faults, serials, targets = im.do(op)
-        new = im.rec[n0:]
-        st = Step()
-        st.op, st.lines, st.faults, st.new, st.serials = op, lines, faults, new, serials
-        st.targets, st.created = targets, list(im.created)
-        st.obs = im.snapshot(new, faults, _bodies_for(im, op, new, serials))
-        steps.append(st)
-        mon.step(st)
+        steps.append(_step(im, mon, op, lines, faults, im.rec[n0:], serials, targets, list(im.created)))
     for st in steps:
         st.lines = im.finish_lines(st.lines)
-    return im, steps, mon.problems
+    return [(im, steps, mon.problems)]
 
 
-ORACLE_STREAMS = ('interleave-exhaustive', 'random-schedules', 'reentrant', 'disconnect-callbacks', 'resend')
+ORACLE_STREAMS = ('interleave-exhaustive', 'random-schedules', 'reentrant', 'disconnect-callbacks', 'resend',
+                  'two-connections')
+
+
+def fresh_world_keys(scns):
+    """Run the scenarios, in order, on a freshly imported txdbus (module- and class-level state as in a new process);
+    the keys of the problems the monitor finds in the LAST one."""
+    import sys
+    saved = {m: sys.modules.pop(m) for m in list(sys.modules) if m == 'txdbus' or m.startswith('txdbus.')}
+    n_loc, n_tpl = set(_LOCATORS), set(_TEMPLATES)
+    try:
+        keys = set()
+        for i, scn in enumerate(scns):
+            traces = monitor_scenario(scn)
+            if i == len(scns) - 1:
+                keys = {k for _, _, problems in traces for k, _ in problems}
+        return keys
+    except Exception:
+        return set()
+    finally:
+        for m in list(sys.modules):
+            if m == 'txdbus' or m.startswith('txdbus.'):
+                del sys.modules[m]
+        sys.modules.update(saved)
+        for k in set(_LOCATORS) - n_loc:
+            del _LOCATORS[k]
+        for k in set(_TEMPLATES) - n_tpl:
+            del _TEMPLATES[k]
+
+
+class Exemplars:
+    """Which input goes into the replay of a key.  All scenarios of a run share one process, so state leaked at module
+    or class level makes a LATER, smaller scenario fail that passes when replayed alone.  A candidate becomes the
+    exemplar only if it fails with the same key on a freshly imported txdbus - alone, or after a short history
+    (the first scenario of the run that received an error reply / the scenarios just before it), which is then stored
+    with it (`history`) and run first by `replay`."""
+    TRIES = 6
+
+    def __init__(self):
+        self.best = {}          # key -> (size, input)
+        self.tries = {}
+        self.recent = []
+        self.first_err = None
+
+    def ran(self, scn):
+        if self.first_err is None and any(o[0] in ('err', 'group') for o in flat_ops(scn)):
+            self.first_err = scn
+        self.recent.append(scn)
+        del self.recent[:-12]
+
+    def input_for(self, key, scn):
+        size = len(json.dumps(scn, sort_keys=True))
+        best = self.best.get(key)
+        if best is not None and best[0] <= size:
+            return best[1], True
+        if self.tries.get(key, 0) >= self.TRIES:
+            return (best[1], True) if best else (scn, False)
+        self.tries[key] = self.tries.get(key, 0) + 1
+        before = [h for h in self.recent if h is not scn]
+        hists = [[]]
+        if self.first_err is not None and self.first_err is not scn:
+            hists.append([self.first_err])
+        if before:
+            hists.append(before[-3:])
+            hists.append(before)
+        for hist in hists:
+            if key in fresh_world_keys([dict(h, history=[]) for h in hist] + [dict(scn, history=[])]):
+                inp = dict(scn)
+                inp.pop('history', None)
+                if hist:
+                    inp['history'] = [{k: v for k, v in h.items() if k != 'history'} for h in hist]
+                cand = (len(json.dumps(inp, sort_keys=True)), inp)
+                if best is None or cand[0] < best[0]:
+                    self.best[key] = best = cand
+                return best[1], True
+        return (best[1], True) if best else (scn, False)
 
 
 def process_batch(ctx, batch):
     """batch: list of scenarios.  Runs implementation + monitor, then the model on all lines at once."""
+    ex = ctx.__dict__.setdefault('_c08_exemplars', Exemplars())
     results = []
     lines = []
     for scn in batch:
         try:
-            im, steps, problems = monitor_scenario(scn)
+            traces = monitor_scenario(scn)
         except SetupFailure as e:
             ctx.case(scn['stream'], sample=scn)
             ctx.violation('matching-return-does-not-complete-hello', str(e),
                           {'stream': scn['stream'], 'ready': True, 'serial0': scn.get('serial0', 1), 'ops': []},
                           observed='connection not ready', expected='busName set, connect Deferred fired once')
             return False
-        results.append((scn, steps, problems))
-        lines.append('reset %d' % (1 if scn.get('ready', True) else 0))
-        for st in steps:
-            lines.extend(st.lines)
-        stats(ctx, scn, im, steps)
+        stream = scn['stream']
+        if stream in ORACLE_STREAMS:
+            # judged here, while the process is in the state in which the scenario ran
+            for im, steps, problems in traces:
+                for key, text in problems:
+                    inp, confirmed = ex.input_for(key, scn)
+                    if not confirmed:
+                        text += ' [seen in a run of many scenarios in one process; this input alone, on a freshly ' \
+                                'imported txdbus, did not show it - state left by earlier scenarios is involved]'
+                    ctx.violation(key, text, inp, observed=[st.obs for st in steps], expected='see property statement')
+        ex.ran(scn)
+        results.append((scn, traces))
+        for im, steps, problems in traces:
+            lines.append('reset %d' % (1 if scn.get('ready', True) else 0))
+            for st in steps:
+                lines.extend(st.lines)
+            stats(ctx, scn, im, steps)
     out = ctx.model(lines)
     pos = 0
-    for scn, steps, problems in results:
+    for scn, traces in results:
         stream = scn['stream']
-        ctx.case(stream, sample=scn, nontrivial=any(o[0] in ('call', 'recall') for o in scn['ops'])
+        ctx.case(stream, sample=scn, nontrivial=any(o[0] in ('call', 'recall') for o in flat_ops(scn))
                  and len(scn['ops']) > 1)
-        ctx.impl_trace()
-        if out is not None:
+        for im, steps, problems in traces:
+            ctx.impl_trace()
+            if out is None:
+                continue
             pos += 1   # reset
             merged = []
             for st in steps:
@@ -1699,18 +1999,16 @@ def process_batch(ctx, batch):
             if merged != impl_lines:
                 j = next(x for x in range(len(merged)) if merged[x] != impl_lines[x])
                 ctx.disagree(stream, scn, merged, impl_lines,
-                             detail='first difference at step %d (%r): model %s / impl %s'
-                                    % (j, steps[j].op, merged[j], impl_lines[j]))
-        if stream in ORACLE_STREAMS:
-            for key, text in problems:
-                ctx.violation(key, text, scn, observed=[st.obs for st in steps], expected='see property statement')
+                             detail='%sfirst difference at step %d (%r): model %s / impl %s'
+                                    % ('connection %s: ' % im.label if im.label else '', j, steps[j].op, merged[j],
+                                       impl_lines[j]))
     return True
 
 
 def stats(ctx, scn, im, steps):
-    ncalls = sum(1 for o in scn['ops'] if o[0] in ('call', 'callbad', 'recall'))
+    ncalls = sum(1 for o in flat_ops(scn) if o[0] in ('call', 'callbad', 'recall'))
     ctx.stat('%s:calls=%d' % (scn['stream'][:6], ncalls))
-    for o in scn['ops']:
+    for o in (flat_ops(scn) if im.label != 'B' else []):
         ctx.stat('op:' + o[0])
         if o[0] == 'call':
             ctx.stat('call:er=%d,tmo=%s' % (o[1], o[2]))
@@ -1790,6 +2088,10 @@ def run(ctx):
         if not process_batch(ctx, list(gen_disconnect_callbacks())):
             return
         if not process_batch(ctx, list(gen_resend())):
+            return
+        two = list(gen_two_connections())
+        two += [gen_two_random(ctx.rng) for _ in range(ctx.scale(quick=300, thorough=4000))]
+        if not process_batch(ctx, two):
             return
         k = ctx.scale(quick=700, thorough=12000)
         for b in batches((gen_reentrant_random(ctx.rng) for _ in range(k)), 4000):
